@@ -60,6 +60,9 @@ func ParseType(c string) (schema.Type, error) {
 		return &schema.BinaryType{T: "blob"}, nil
 	}
 	parts := columnParts(c)
+	if len(parts) == 0 {
+		return &UserDefinedType{T: c}, nil
+	}
 	switch t := parts[0]; t {
 	case "bool", "boolean":
 		return &schema.BoolType{T: t}, nil
